@@ -1,5 +1,15 @@
+/-! Model of `tracklib/core/network.py`: `Network.addEdge` (NEXT_EDGES), `run_routing_forward`
+(Dijkstra mode), `shortest_distance`, `all_shortest_distances`, `prepare`,
+`prepared_shortest_distance`, `run_routing_backward`, `shortest_path`; and of
+`priority_dict.pop_smallest` (`tracklib/core/utils.py`) as "extract the entry with the smallest
+`(priority, node id)`" (heap entries are `(poids, Node)` tuples, `Node.__lt__` compares ids).
+
+Nodes are `0 … n-1` (the index order is the order of the node ids, which is what breaks ties in the
+heap); edge ids are assumed unique (`EDGES` is a dict keyed by id). `poids = -1` is `none`.
+A* mode (`routing_mode = 1`) is outside the model. Core Lean only. -/
 namespace TV.Graph
 structure Edge (W : Type) where
+  id : Nat := 0
   src : Nat
   tgt : Nat
   w : W
@@ -20,7 +30,7 @@ def other (e : Edge W) (u : Nat) : Nat := if e.tgt = u then e.src else e.tgt
 structure St (W : Type) where
   d : Nat → Option W       -- poids (none = -1)
   vis : Nat → Bool         -- visite
-  pred : Nat → Option (Nat × Nat)   -- antecedent node (edge identity omitted in the spike)
+  pred : Nat → Option (Nat × Nat)   -- (antecedent node, antecedent_edge id); none = ""
 
 def St.init (s : Nat) [OfNat W 0] : St W :=
   { d := fun v => if v = s then some 0 else none, vis := fun _ => false, pred := fun _ => none }
@@ -43,7 +53,7 @@ def relaxOne (u : Nat) (du : W) (st : St W) (e : Edge W) : St W :=
   let v := other e u
   if st.vis v then st else
   let upd : St W := { st with d := fun z => if z = v then some (du + e.w) else st.d z,
-                              pred := fun z => if z = v then some (u, 0) else st.pred z }
+                              pred := fun z => if z = v then some (u, e.id) else st.pred z }
   match st.d v with
   | none => upd
   | some y => if du + e.w < y then upd else st
@@ -60,4 +70,110 @@ def run (net : Net W) : Nat → St W → St W
   | f+1, st => match step net st with
     | none => st
     | some st' => run net f st'
+
+/-! ### the loop as `run_routing_forward` has it: target stop, cut-off, `output_dict` -/
+
+/-- one iteration after the stop tests: `pere.visite = True` and the loop over `NEXT_EDGES[pere]` -/
+def settle (net : Net W) (st : St W) (u : Nat) (du : W) : St W :=
+  (nextEdges net u).foldl (relaxOne u du) { st with vis := fun z => if z = u then true else st.vis z }
+
+/-- `(pere.poids > cut) or (pere.id == target)`; `cut = none` is the default `1e300` (no cut-off),
+`target = none` is `target=None`. -/
+def stops (target : Option Nat) (cut : Option W) (u : Nat) (du : W) : Bool :=
+  (match cut with | some c => decide (c < du) | none => false) ||
+  (match target with | some t => decide (u = t) | none => false)
+
+/-- the `while len(fil) != 0` loop; `out` = the `(pere.id, pere.poids)` entries written to
+`output_dict` so far, in pop order. The stop tests come BEFORE recording / settling. -/
+def forward (net : Net W) (target : Option Nat) (cut : Option W) :
+    Nat → St W → List (Nat × W) → St W × List (Nat × W)
+  | 0, st, out => (st, out)
+  | f+1, st, out =>
+    match popMinAux st net.n with
+    | none => (st, out)
+    | some (u, du) =>
+      if stops target cut u du then (st, out)
+      else forward net target cut f (settle net st u du) (out ++ [(u, du)])
+
+/-- `run_routing_forward(source, target, cut, output_dict)`: final node flags and the recorded entries.
+Fuel `n`: every iteration settles a new node. -/
+def runForward [OfNat W 0] (net : Net W) (s : Nat) (target : Option Nat) (cut : Option W) :
+    St W × List (Nat × W) :=
+  forward net target cut net.n (St.init s) []
+
+/-- `shortest_distance(source, target, cut)` = `NODES[target].poids` (`none` = -1) -/
+def shortestDistance [OfNat W 0] (net : Net W) (s t : Nat) (cut : Option W) : Option W :=
+  (runForward net s (some t) cut).1.d t
+
+/-- `shortest_distance(source, None, cut)`: the labels of all nodes in insertion order `order`
+(`none` is rendered `1e300` by the code) -/
+def shortestDistanceList [OfNat W 0] (net : Net W) (order : List Nat) (s : Nat) (cut : Option W) :
+    List (Option W) :=
+  order.map (runForward net s none cut).1.d
+
+/-- the `{(source, node): distance}` dictionary, as a finite map (absent key = `none`) -/
+abbrev Table (W : Type) := Nat × Nat → Option W
+
+def Table.empty : Table W := fun _ => none
+
+/-- `d[k] = v` -/
+def Table.set (tb : Table W) (k : Nat × Nat) (v : W) : Table W := fun k' => if k' = k then some v else tb k'
+
+/-- `output_dict[(source, pere.id)] = pere.poids` for every entry recorded by one forward pass -/
+def record (tb : Table W) (s : Nat) (out : List (Nat × W)) : Table W :=
+  out.foldl (fun tb p => tb.set (s, p.1) p.2) tb
+
+/-- `all_shortest_distances(cut, output_dict)`: one forward pass per node, in insertion order -/
+def allShortestDistances [OfNat W 0] (net : Net W) (order : List Nat) (cut : Option W) (tb : Table W) :
+    Table W :=
+  order.foldl (fun tb s => record tb s (runForward net s none cut).2) tb
+
+/-- `prepare(cut)`: `DISTANCES` (created empty when `None`) is filled by `all_shortest_distances` -/
+def prepare [OfNat W 0] (net : Net W) (order : List Nat) (cut : Option W) (distances : Option (Table W)) :
+    Table W :=
+  allShortestDistances net order cut (distances.getD Table.empty)
+
+/-- `prepared_shortest_distance(source, target)`; `none` is rendered `1e300` -/
+def preparedShortestDistance (tb : Table W) (s t : Nat) : Option W := tb (s, t)
+
+/-! ### `run_routing_backward` (as it is after fix 9d0d428) and `shortest_path` -/
+
+/-- node positions and edge polylines (by edge id) -/
+structure Geo (P : Type) where
+  pos : Nat → P
+  line : Nat → List P
+
+/-- `self.EDGES[id]` -/
+def findEdge (net : Net W) (id : Nat) : Option (Edge W) := net.edges.find? (fun e => e.id == id)
+
+inductive Back (P : Type) where
+  | none                                         -- `return None`
+  | diverge                                      -- the Python loop would not end / KeyError (proved impossible)
+  | path (nodes : List Nat) (geom : List P)      -- `track.path`, coordinates of the returned track
+deriving Repr, DecidableEq
+
+/-- the `while node.antecedent != "":` loop; `nodes` = NODES_PATH, `track` = points of `track` -/
+def backAux {P : Type} (net : Net W) (geo : Geo P) (st : St W) :
+    Nat → Nat → List Nat → List P → Back P
+  | 0, _, _, _ => .diverge
+  | f+1, node, nodes, track =>
+    match st.pred node with
+    | Option.none => .path nodes.reverse track.reverse     -- `track.path = NODES_PATH[::-1]; return track.reverse()`
+    | some (a, eid) =>
+      match findEdge net eid with
+      | Option.none => .diverge
+      | some e =>
+        let g := geo.line eid                                -- `e.geom.copy()`
+        let g := if e.src ≠ node then g.reverse else g       -- `if e.source != node: edge_geom.reverse()`
+        backAux net geo st f a (nodes ++ [a]) (track ++ g.drop 1)   -- `track + (edge_geom > 1)`
+
+/-- `run_routing_backward(target)` on the flags left by the forward pass -/
+def runBackward {P : Type} (net : Net W) (geo : Geo P) (st : St W) (t : Nat) : Back P :=
+  match st.pred t with
+  | Option.none => .none                                   -- `if node.antecedent == "": return None`
+  | some _ => backAux net geo st (net.n + 1) t [t] [geo.pos t]
+
+/-- `shortest_path(source, target, cut)` -/
+def shortestPath {P : Type} [OfNat W 0] (net : Net W) (geo : Geo P) (s t : Nat) (cut : Option W) : Back P :=
+  runBackward net geo (runForward net s (some t) cut).1 t
 end TV.Graph
